@@ -221,6 +221,18 @@ func (fc *fnCtx) heapGet(st *State, name, sort string) string {
 	}
 	n := fc.defs.Declare("H."+name+"."+st.heapBase, sort)
 	t.heapInit[key] = n
+	// representation invariants of stored values (non-negative lengths, unsigned ranges) hold in every heap
+	if et := t.heapElemTy[name]; et != nil {
+		if strings.HasPrefix(name, "f.") || strings.HasPrefix(name, "p.") {
+			if rf := fc.S().RangeFact(et, fmt.Sprintf("(select %s r)", n), 1); rf != "true" {
+				fc.defs.Axiom(n, fmt.Sprintf("(forall ((r Int)) (! %s :pattern ((select %s r))))", rf, n))
+			}
+		} else if strings.HasPrefix(name, "e.") {
+			if rf := fc.S().RangeFact(et, fmt.Sprintf("(select (select %s r) i)", n), 1); rf != "true" {
+				fc.defs.Axiom(n, fmt.Sprintf("(forall ((r Int) (i Int)) (! %s :pattern ((select (select %s r) i))))", rf, n))
+			}
+		}
+	}
 	if st.heapBase == "0" && t.alloc0 != "" {
 		// well-formed entry heap: stored pointers and slice backing arrays were allocated before entry
 		switch et := t.heapElemTy[name]; {
@@ -686,6 +698,49 @@ func (fc *fnCtx) strLit(s string) string {
 	return n
 }
 
+// deround: go/types rounds typed floating-point constants to their machine precision
+// (2./3 as a float32 becomes 0.666666686...). Under the float-as-real reading a constant
+// stands for the real number the source denotes, so a machine constant that is the rounding
+// of a simple fraction p/q (q <= 4096, within the type's rounding error) is read as p/q.
+func deround(r *big.Rat, t types.Type) *big.Rat {
+	if r.IsInt() {
+		return r
+	}
+	eps := new(big.Rat).SetFrac64(1, 1<<22) // float32: 2^-23 relative, with slack
+	if b, ok := t.Underlying().(*types.Basic); ok && b.Kind() == types.Float64 {
+		eps = new(big.Rat).SetFrac64(1, 1<<50)
+	}
+	abs := new(big.Rat).Abs(r)
+	tol := new(big.Rat).Mul(abs, eps)
+	// continued-fraction convergents
+	x := new(big.Rat).Set(abs)
+	h0, h1 := big.NewInt(0), big.NewInt(1)
+	k0, k1 := big.NewInt(1), big.NewInt(0)
+	for i := 0; i < 24; i++ {
+		a := new(big.Int).Quo(x.Num(), x.Denom())
+		h2 := new(big.Int).Add(new(big.Int).Mul(a, h1), h0)
+		k2 := new(big.Int).Add(new(big.Int).Mul(a, k1), k0)
+		if k2.Cmp(big.NewInt(4096)) > 0 {
+			break
+		}
+		cand := new(big.Rat).SetFrac(h2, k2)
+		diff := new(big.Rat).Sub(cand, abs)
+		if diff.Abs(diff).Cmp(tol) <= 0 {
+			if r.Sign() < 0 {
+				cand.Neg(cand)
+			}
+			return cand
+		}
+		frac := new(big.Rat).Sub(x, new(big.Rat).SetInt(a))
+		if frac.Sign() == 0 {
+			break
+		}
+		x = new(big.Rat).Inv(frac)
+		h0, h1, k0, k1 = h1, h2, k1, k2
+	}
+	return r
+}
+
 func ratTerm(r *big.Rat) string {
 	neg := r.Sign() < 0
 	a := new(big.Rat).Abs(r)
@@ -730,13 +785,13 @@ func (fc *fnCtx) constVal(c constant.Value, t types.Type) Val {
 		cf := constant.ToFloat(c)
 		switch x := constant.Val(cf).(type) {
 		case *big.Rat:
-			return Val{T: ratTerm(x), Ty: t}
+			return Val{T: ratTerm(deround(x, t)), Ty: t}
 		case *big.Float:
 			r, _ := x.Rat(nil)
 			if r == nil {
 				return Val{T: "0.0", Ty: t}
 			}
-			return Val{T: ratTerm(r), Ty: t}
+			return Val{T: ratTerm(deround(r, t)), Ty: t}
 		case int64:
 			return Val{T: ratTerm(new(big.Rat).SetInt64(x)), Ty: t}
 		case *big.Int:
